@@ -48,6 +48,10 @@ func c04Case(c *Ctx) {
 		return
 	}
 	w, lim := wlTreeCaseFor(c.Tier, c.Seed, c.Case)
+	if w.SepTrials > 0 {
+		defer knobs(w.SepTrials, 1)()
+		c.Count("trees_with_failing_separator", 1)
+	}
 	b, err := w.Build()
 	if err != nil {
 		c.Note("list refused: " + err.Error())
